@@ -61,6 +61,7 @@ func main() {
 			}
 			c.Require("histories", 100)
 			c.Require("max.prodscale_stored_lines", 10000)
+			c.Require("clientlog.histories", 10)
 			c.Require("printf.fresh_fits", 500)
 			c.Require("printf.fresh_evicts", 200)
 			c.Require("printf.repeat", 200)
@@ -99,6 +100,9 @@ func plan(tier string, seed int64) []run.Batch {
 		for i := 0; i < 4; i++ {
 			add("prodscale", []string{"", "race"}[i%2], 1, i)
 		}
+		for i := 0; i < 4; i++ {
+			add("clientlog", []string{"", "race"}[i%2], 40, i)
+		}
 		for i := 0; i < 16; i++ {
 			add("seq", "race", 1250, i)
 		}
@@ -114,6 +118,7 @@ func plan(tier string, seed int64) []run.Batch {
 		return bs
 	}
 	add("prodscale", "", 1, 0)
+	add("clientlog", "", 25, 0)
 	for i := 0; i < 8; i++ {
 		add("seq", "race", 500, i)
 	}
@@ -133,6 +138,8 @@ func child(b run.Batch, r *ev.Result) {
 	switch b.Kind {
 	case "prodscale":
 		childProdScale(b, r)
+	case "clientlog":
+		childClientLog(b, r)
 	case "seq":
 		childSeq(b, r)
 	case "conc":
